@@ -328,6 +328,7 @@ func (e *Encoder) stdlibCall(callee *ssa.Function, cm *ssa.CallCommon, args []Va
 		kp := c.fresh("clonecap")
 		c.declare(kp, c.idx())
 		c.assume(implies(pc, and(c.cmp("<=", intT, ln, kp), c.cmp("<", intT, kp, c.lit(intT, pow2(40))))))
+		c.assume(implies(pc, c.cmp("<=", intT, c.idxLit(0), ln))) // (a slice has a non-negative length)
 		res := fmt.Sprintf("(ite (= (sbase %s) lnil) (mkslice lnil %s %s %s) (mkslice %s %s %s %s))", args[0].S, c.idxLit(0), c.idxLit(0), c.idxLit(0), loc, c.idxLit(0), ln, kp)
 		return Val{T: resT, S: c.define("clone", "Slice", res)}, true
 	case n == "slices.Grow" && len(args) == 2:
